@@ -43,6 +43,8 @@ type Rec struct {
 	Z string `sod:"index"`
 	V int
 	W string `sod:"lower"`
+	// O is omitted from the JSON of an object when zero: a decoder that reuses its target sees the previous object's value
+	O int `json:",omitempty" sod:"index"`
 	// payload (opaque to the specification)
 	L []int
 	M map[string][]*Sub
@@ -69,6 +71,7 @@ type RecPlain struct {
 	Z string
 	V int
 	W string `sod:"lower"`
+	O int    `json:",omitempty"`
 	L []int
 	M map[string][]*Sub
 	Q *int
@@ -171,6 +174,7 @@ func buildRec(v Vals, pl int) *Rec {
 	r.Z = uniZ[v["Z"]]
 	r.V = uniV[v["V"]]
 	r.W = caseLower.value(v["W"])
+	r.O = uniO[v["O"]]
 	setPayload(r, pl)
 	return r
 }
@@ -198,6 +202,7 @@ func encodeRec(r *Rec) Vals {
 	v["Z"] = idxS(uniZ, r.Z)
 	v["V"] = idxInt(uniV, r.V)
 	v["W"] = caseLower.encode(r.W)
+	v["O"] = idxInt(uniO, r.O)
 	return v
 }
 
